@@ -1,1 +1,12 @@
+pub mod drain;
+pub mod engine;
+pub mod entity;
+pub mod panics;
+pub mod reqgen;
+pub mod served;
 pub mod util;
+pub mod oracle {
+    pub mod multipart;
+    pub mod range_ref;
+}
+pub mod props;
